@@ -92,11 +92,17 @@ def per_chain_rngs(run, it):
     it.overrides.pop((MOD, "default_rng"), None)
 
 
+class _StillWaiting(Exception):
+    """the parent keeps polling the progress queue although an interrupt was delivered and nothing more can arrive"""
+
+
 class StubQueue:
     def __init__(self, order=None):
         self.items = []
         self.order = order  # optional permutation applied when popping (scheduling perturbation)
         self.popped = 0
+        self.interrupt_delivered = False
+        self.gets_after_interrupt = 0
 
     def _pv_getattr(self, ex, name):
         if name == "put":
@@ -104,9 +110,18 @@ class StubQueue:
         if name == "empty":
             return Native(lambda ex2: not self.items, "empty")
         if name == "get":
-            def get(ex2, block=True):
+            def get(ex2, block=True, timeout=None):
+                if self.interrupt_delivered:
+                    self.gets_after_interrupt += 1
+                    if self.gets_after_interrupt > 40:
+                        raise _StillWaiting()
                 if not self.items:
+                    if block and timeout is None:
+                        # every worker has already returned (they run to completion inside starmap_async in this model): nothing can arrive any more
+                        raise _StillWaiting()
                     raise PyRaise(Obj(ex2.interp.ext_modules["queue"].Empty, {"args": ()}))
+                if self.order is None and isinstance(self.items[0], Obj) and self.items[0].cls.name == "KeyboardInterrupt":
+                    self.interrupt_delivered = True
                 if self.order is not None:
                     # pop the remaining item that comes first in the perturbed order
                     idx = min(range(len(self.items)), key=lambda i: self.order.index(self.items[i][0]))
@@ -126,7 +141,10 @@ def parallel(run, it, prop="C14"):
     def h(ctx):
         perm = list(perms[ctx.choose(len(perms), "worker-pickup-order")])
         n_proc = ctx.choose(2, "n_process") + 2
-        interrupt_chain = (ctx.choose(NCH + 1, "interrupted-chain") - 1) if prop == "C15" else -1
+        # C15: no interrupt / one worker interrupted at chain c / the interrupt reaches EVERY worker (Ctrl-C goes to the whole process group):
+        # each worker is then interrupted in the chain it is running and the chains still queued are never started
+        interrupt_chain = (ctx.choose(NCH + 2, "interrupted-chain") - 1) if prop == "C15" else -1
+        interrupt_all = interrupt_chain == NCH
         mod = it.module(MOD)
         ex = Exec(it, ctx, mod, mod.env, "harness")
         empty_cls = it.builtins["Exception"]
@@ -191,7 +209,7 @@ def parallel(run, it, prop="C14"):
             g["sampled"].append(dict(chain=c, init=kw["init_state"], rng_stream=kw["rng"].bit_generator.state, traces=kw["chain_traces"], common=kw.get("transitions")))
             kw["rng"].draw(5)  # the chain consumes random numbers: the *worker's copy* of the generator advances
             _, n_iter, job, q = kw["chain_iterator"]
-            if c == interrupt_chain:
+            if c == interrupt_chain or interrupt_all:
                 return (Opaque(f"final<{c}>"), {}, Obj(ex_.interp.builtins["KeyboardInterrupt"], {"args": ()}))
             q.items.append((job, n_iter, {}))  # progress message of the last iteration
             return (Opaque(f"final<{c}>"), {}, None)
@@ -229,12 +247,26 @@ def parallel(run, it, prop="C14"):
         except PyRaise as pr:
             ctx.run.ob(tag + "/returns-normally", core.FAILED, "pyvc", detail=f"{exc_name(pr.exc)} {pr.exc.attrs.get('args')} (pickup order {perm})")
             return
+        except _StillWaiting:
+            ctx.run.ob(tag + "/parent-stops-waiting-once-an-interrupt-is-reported", core.FAILED, "pyvc",
+                       detail=f"the parent blocks on (or keeps polling) the progress queue although every worker has returned and nothing more can arrive (n_process={n_proc}, "
+                       f"{'every worker interrupted' if interrupt_all else f'chain {interrupt_chain} interrupted'}, chains never started: "
+                       f"{sorted(set(range(NCH)) - set(s_['chain'] for s_ in g['sampled']))}): sample_chains does not return",
+                       witness={"n_process": n_proc, "all_workers_interrupted": interrupt_all},
+                       text="termination: after the first KeyboardInterrupt item the parent performs no further get on the progress queue")
+            return
         finally:
             it.call_contracts.pop("_sample_chain", None)
             for k in ("_ignore_sigint_manager", "_pool_context_manager", "ExitStack", "_ProxySequenceProgressBar", "THREADPOOLCTL_AVAILABLE",
                       "MULTIPROCESS_AVAILABLE", "PicklingError"):
                 it.overrides.pop((MOD, k), None)
         if prop == "C15":
+            if interrupt_chain >= 0:
+                pq = g["queues"][0] if g["queues"] else None
+                polls = pq.gets_after_interrupt if pq is not None else 0
+                ctx.run.ob(tag + "/parent-stops-waiting-once-an-interrupt-is-reported", core.DISCHARGED if polls == 0 else core.FAILED, "pyvc",
+                           detail="" if polls == 0 else f"{polls} further polls of the progress queue after the interrupt was delivered",
+                           text="termination: after the first KeyboardInterrupt item the parent performs no further get on the progress queue")
             sampled = sorted(s_["chain"] for s_ in g["sampled"])
             got = [getattr(s_, "_name", None) for s_ in states]
             if interrupt_chain >= 0:
@@ -336,6 +368,42 @@ def unseeded_sources(run):
            text="no module-level numpy/random/time/urandom call in the sampling code path")
 
 
+def shared_objects_frame(run):
+    """Adapter objects are shared by all chains of a process (and copied to worker processes per stage): per-chain adaptation state
+    lives in the `adapt_state` dictionaries.  Frame obligation (Engine C, on the real source): outside `__init__` no method of an
+    adapter class assigns, augments or deletes an attribute of `self` -- otherwise what one chain computes leaks into the chains the
+    same process handles later, and the result depends on the chain-to-process schedule."""
+    import ast
+    from .. import frames
+    tree, _ = frames.parse_module("adapters")
+    n = 0
+    for cls in [x for x in tree.body if isinstance(x, ast.ClassDef)]:
+        for fn in [x for x in cls.body if isinstance(x, (ast.FunctionDef, ast.AsyncFunctionDef)) and x.name != "__init__"]:
+            writes = []
+            for node in ast.walk(fn):
+                targets = []
+                if isinstance(node, ast.Assign):
+                    targets = node.targets
+                elif isinstance(node, (ast.AugAssign, ast.AnnAssign)):
+                    targets = [node.target]
+                elif isinstance(node, ast.Delete):
+                    targets = node.targets
+                elif isinstance(node, ast.Call) and isinstance(node.func, ast.Name) and node.func.id == "setattr" and node.args and \
+                        isinstance(node.args[0], ast.Name) and node.args[0].id == "self":
+                    writes.append(f"setattr(self, ...) at line {node.lineno}")
+                for t in targets:
+                    for x in ast.walk(t):
+                        if isinstance(x, ast.Attribute) and isinstance(x.value, ast.Name) and x.value.id == "self":
+                            writes.append(f"self.{x.attr} at line {node.lineno}")
+            n += 1
+            run.ob(f"adapters.{cls.name}.{fn.name}/does-not-write-the-shared-adapter-object", core.DISCHARGED if not writes else core.FAILED, "frames",
+                   detail="" if not writes else f"{cls.name}.{fn.name} writes {writes}: the adapter object is shared by every chain (and stage) its process handles",
+                   witness=None if not writes else {"class": cls.name, "method": fn.name, "writes": writes},
+                   text="adapter methods other than __init__ keep all state in adapt_state (frame: no write to self.*)")
+    if n == 0:
+        run.ob("adapters/does-not-write-the-shared-adapter-object", core.ERROR, "frames", detail="no adapter methods found")
+
+
 def run(run_, tier):
     it = samplers_model.make_interp(run_)
     run_.assume("A10: numpy Generator draws, jumped(i) and SeedSequence.spawn behave as documented (non-overlapping streams determined by (state, i))")
@@ -348,6 +416,7 @@ def run(run_, tier):
     parallel(run_, it)
     base_generator_use(run_, it)
     unseeded_sources(run_)
+    shared_objects_frame(run_)
     # chains share the transition / integrator objects of their process: adapter initialisation must not read what another chain left there
     from . import c17
     it17 = c17.make_interp(run_)
